@@ -495,6 +495,12 @@ CHECKS["C11"]["rule"] += (" Plus far distances: OSAP over more than a MiB of byt
                           "drawn seed) with 4-24 planted copies of 2..24 bytes at distances around the powers of two up to 2^20 and beyond; "
                           "repeats are so rare in such a text that the exact optimum of every block is computed by the same dynamic "
                           "program over an index of the minimum-match-length grams.")
+for _k in ["HP", "BHP", "DHP", "BDHP", "BUP"]:
+    CHECKS["C19"]["quick"]["tests"].append({"test": "TestC19Volume", "checks": 1, "subchecks": 1, "env": {"VERIF_KINDS": _k}})
+    CHECKS["C19"]["thorough"]["tests"].append({"test": "TestC19Volume", "checks": 3, "subchecks": 1, "once": True, "env": {"VERIF_KINDS": _k}})
+CHECKS["C19"]["rule"] += (" Plus volume: a run of one byte of more than 2^32 bytes goes through one instance of each hash parser, every "
+                          "block really parsed; the run clause is checked in every block (also where the stream position passes 2^31 "
+                          "and 2^32), the expansion within 2 MiB of these marks.")
 CHECKS["C15"]["quick"]["tests"].append({"test": "TestC15Volume", "checks": 6, "subchecks": 1})
 CHECKS["C15"]["thorough"]["tests"].append({"test": "TestC15Volume", "checks": 8, "subchecks": 1, "once": True,
                                            "env": {"VERIF_VOLUME_PARSERS": "1"}})
